@@ -68,7 +68,8 @@ def build(payload, fill, talker='AI', typ='VDM', channel='A', seq=None, cuts=(),
                 'checksum': s[-2:], 'tag': None if tag is None else s[1:s.index(b'\\', 1)], 'trailing': suffix})
             witness['seq'] = seq
         s = s + suffix
-        out.append(s.decode('ascii') if as_str else s)
+        str_here = as_str[i - 1] if isinstance(as_str, list) else as_str
+        out.append(s.decode('ascii') if str_here else s)
     if order is not None:
         out = [out[j] for j in order]
     return out
@@ -86,7 +87,7 @@ def check(ctx, bits, base, desc, parts, kw=None):
         rep.violation({'entry': 'decode', 'component': comp, 'kind': kind, 'transformation': desc[0]},
                       f'carrier variation {desc} of the same payload decodes differently: {detail}',
                       {'bits': bits, 'parts': [p if isinstance(p, str) else p.decode('latin-1') for p in parts],
-                       'as_str': isinstance(parts[0], str), 'kw': kw or {}})
+                       'as_str': [isinstance(p, str) for p in parts], 'kw': kw or {}})
     return got
 
 
@@ -108,6 +109,20 @@ def variations(rng, payload, fill, budget, exhaustive_cuts):
     for tag in ('s:2573535,c:1671533231', 'g:1-1-77', 'c:1'):
         yield ('tagblock', tag), dict(tag=tag)
     yield ('bad-checksum',), dict(bad_checksum_on=0)
+    # strict checksum mode must not matter either when every checksum is right -- in particular the legitimate checksum 00
+    # (and one-digit-significant ones): search the carrier details for sentences whose body XORs to 0x00 / below 0x10
+    found = {0: 0, 1: 0}
+    for t in TALKERS:
+        for ty in TYPES[:2]:
+            for ch in CHANNELS:
+                for sq in SEQS:
+                    x = ais.xor_checksum(ais.sentence(t + ty, 1, 1, sq, ch, payload, fill)[1:-3])
+                    cls = 0 if x == 0 else (1 if x < 16 else None)
+                    if cls is not None and found[cls] < 2:
+                        found[cls] += 1
+                        yield ('strict', 'xor=%02X' % x), dict(talker=t, typ=ty, channel=ch, seq=sq,
+                                                               kw={'error_if_checksum_invalid': True})
+    yield ('strict',), dict(kw={'error_if_checksum_invalid': True})
     # fragmentation and order
     cutsets = []
     if n >= 2:
@@ -132,6 +147,8 @@ def variations(rng, payload, fill, budget, exhaustive_cuts):
                         talker=rng.choice(TALKERS), typ=rng.choice(TYPES))
             if rng.random() < 0.3:
                 opts['as_str'] = True
+            elif rng.random() < 0.3:
+                opts['as_str'] = [rng.random() < 0.5 for _ in range(k)]      # a log line here, a socket line there
             if rng.random() < 0.3:
                 opts['suffix'] = rng.choice([b'\r\n', b'\n', b' '])
             if rng.random() < 0.2:
@@ -229,8 +246,9 @@ def run(ctx, n_payloads=None, cut_budget=None):
             small = ais.armor(bits[:48])          # exhaustive cut sets on a short prefix of the same payload
             for desc, opts in variations(rng, payload, fill, cut_budget, False):
                 w = {}
+                kw = opts.pop('kw', None)
                 parts = build(payload, fill, witness=w, **opts)
-                check(ctx, bits, base, desc, parts)
+                check(ctx, bits, base, desc, parts, kw)
                 model_cases.append((bits, parts, (payload, fill, w)))
                 if desc[0] == 'fragments' and desc[2] == 'permuted':
                     # the same parts once more, in fragment order: an earlier call must leave no trace (hidden state)
@@ -243,6 +261,7 @@ def run(ctx, n_payloads=None, cut_budget=None):
                     for desc, opts in variations(rng, sp, sf, 0, True):
                         if desc[0] == 'fragments':
                             w = {}
+                            opts.pop('kw', None)
                             parts = build(sp, sf, witness=w, **opts)
                             check(ctx, bits[:48], sbase, desc, parts)
                             if rng.random() < 0.05:
@@ -287,7 +306,9 @@ def hunt(ctx):
 
 
 def replay(ctx, data):
-    parts = [p if data.get('as_str') else p.encode('latin-1') for p in data['parts']]
+    flags = data.get('as_str')
+    flags = flags if isinstance(flags, list) else [bool(flags)] * len(data['parts'])
+    parts = [p if f else p.encode('latin-1') for p, f in zip(data['parts'], flags)]
     payload, fill = ais.armor(data['bits'])
     base = impl(build(payload, fill))
     got = impl(parts, **data.get('kw', {}))
